@@ -90,6 +90,47 @@ func main() {
 		}
 		return true
 	})
+	// a depth limit: the function starts with `if <second parameter> > <constant> { return … }`
+	limit := "none"
+	if nparams == 2 && len(op.Body.List) > 0 {
+		var pnames []string
+		for _, fl := range op.Type.Params.List {
+			for _, n := range fl.Names {
+				pnames = append(pnames, n.Name)
+			}
+		}
+		if ifs, ok := op.Body.List[0].(*ast.IfStmt); ok {
+			if be, ok := ifs.Cond.(*ast.BinaryExpr); ok && be.Op == token.GTR {
+				if id, ok := be.X.(*ast.Ident); ok && id.Name == pnames[1] && len(ifs.Body.List) == 1 {
+					if _, ok := ifs.Body.List[0].(*ast.ReturnStmt); ok {
+						var v ast.Expr = be.Y
+						if cid, ok := be.Y.(*ast.Ident); ok {
+							v = f.VarValue(cid.Name)
+						}
+						if bl, ok := v.(*ast.BasicLit); ok && bl.Kind == token.INT {
+							limit = "some " + bl.Value
+						}
+					}
+				}
+			}
+		}
+		// the recursive call must pass the counter plus one
+		okInc := false
+		ast.Inspect(op.Body, func(n ast.Node) bool {
+			if c, ok := n.(*ast.CallExpr); ok {
+				if sel, ok := c.Fun.(*ast.SelectorExpr); ok && sel.Sel.Name == "open" && len(c.Args) == 2 {
+					if strings.Join(strings.Fields(f.Src(c.Args[1])), "") == pnames[1]+"+1" {
+						okInc = true
+					}
+				}
+			}
+			return true
+		})
+		if !okInc {
+			limit = "none"
+		}
+	}
+	out.Def("openDepthLimit", "Option Nat", limit)
 	out.Def("openParams", "Nat", strconv.Itoa(nparams))
 	out.Def("openSelfCalls", "Nat", strconv.Itoa(selfCalls))
 	out.Def("openAbsCheckFirst", "Bool", xlib.LeanBool(absBefore))
@@ -162,6 +203,8 @@ func main() {
 		return true
 	})
 	out.Def("readDirMutatesReceiver", "Bool", xlib.LeanBool(mut))
+	// the handle keeps a read offset: an integer field, advanced by ReadDir, and io.EOF at the end
+	out.Def("readDirHasOffset", "Bool", xlib.LeanBool(intFields > 0 && mut && eof))
 
 	// canonical skeletons of everything the model transcribes (digests; the text is kept as a comment)
 	emitSkeleton(out, "skelFindNode", skeleton(f, fn, 0))
